@@ -3,7 +3,9 @@ package props
 import (
 	"fmt"
 	"go/constant"
+	"go/token"
 	"go/types"
+	"strconv"
 	"strings"
 
 	"utilcheck/flow"
@@ -57,6 +59,78 @@ func (canonOracle) Cmp(a, b pred.Val) (int, bool) {
 	// the same integer (a year read without sign extension differs from the calendar year for every negative year)
 	if ok1 && ok2 && ca.Root == cb.Root && ca.C == cb.C && ca.Ext == cb.Ext && (ca.Ext == "" || ca.Width == cb.Width) {
 		return 0, true
+	}
+	return 0, false
+}
+
+// CmpOp: besides equal canonical forms, the stored month and day of a real date have known ranges (month 0..11,
+// day 0..30, zero-based as the type stores them): a comparison of month+c / day+c with a constant that holds for the
+// whole range is decided (a redundant range pre-check in front of the calendar guard).
+func (o canonOracle) CmpOp(op token.Token, a, b pred.Val) (int, bool) {
+	if ord, ok := o.Cmp(a, b); ok {
+		return ord, true
+	}
+	flip := map[token.Token]token.Token{token.LSS: token.GTR, token.GTR: token.LSS, token.LEQ: token.GEQ, token.GEQ: token.LEQ, token.EQL: token.EQL, token.NEQ: token.NEQ}
+	if _, isC := a.(pred.Const); isC {
+		a, b, op = b, a, flip[op]
+		if ord, ok := o.CmpOp(op, a, b); ok {
+			return -ord, true
+		}
+		return 0, false
+	}
+	kc, isC := b.(pred.Const)
+	ca, ok := pred.Canon(a)
+	if !isC || kc.V == nil || kc.V.Kind() != constant.Int || !ok {
+		return 0, false
+	}
+	k, exact := constant.Int64Val(kc.V)
+	hiOf := map[string]int64{"d.month": 11, "d.day": 30}
+	top, known := hiOf[ca.Root]
+	if !exact || !known || ca.C < 0 || ca.C > 100 || !(ca.Width == 0 || ca.Width == 8) || ca.Ext == "sext" {
+		return 0, false
+	}
+	lo, hi := ca.C, top+ca.C
+	holds := func(x int64) bool {
+		switch op {
+		case token.LSS:
+			return x < k
+		case token.LEQ:
+			return x <= k
+		case token.GTR:
+			return x > k
+		case token.GEQ:
+			return x >= k
+		case token.EQL:
+			return x == k
+		}
+		return x != k
+	}
+	first := holds(lo)
+	for x := lo; x <= hi; x++ {
+		if holds(x) != first {
+			return 0, false
+		}
+	}
+	// an order under which the operator gives that truth value
+	for _, ord := range []int{-1, 0, 1} {
+		var t bool
+		switch op {
+		case token.LSS:
+			t = ord < 0
+		case token.LEQ:
+			t = ord <= 0
+		case token.GTR:
+			t = ord > 0
+		case token.GEQ:
+			t = ord >= 0
+		case token.EQL:
+			t = ord == 0
+		default:
+			t = ord != 0
+		}
+		if t == first {
+			return ord, true
+		}
 	}
 	return 0, false
 }
@@ -252,6 +326,40 @@ func ruleC11Strict(e *Env) {
 				return false
 			}
 		}
+		// the orderings of one byte against several constants must have a common solution in 0..255
+		lo, hi := map[string]int64{}, map[string]int64{}
+		for k, v := range assign {
+			j := strings.Index(k, "]==")
+			if !strings.HasPrefix(k, "data[") || j < 0 {
+				continue
+			}
+			c, err := strconv.ParseInt(k[j+3:], 10, 64)
+			if err != nil {
+				continue
+			}
+			key := k[:j+1]
+			if _, seen := lo[key]; !seen {
+				lo[key], hi[key] = 0, 255
+			}
+			switch {
+			case v == 0:
+				if c > lo[key] {
+					lo[key] = c
+				}
+				if c < hi[key] {
+					hi[key] = c
+				}
+			case v < 0 && c-1 < hi[key]:
+				hi[key] = c - 1
+			case v > 0 && c+1 > lo[key]:
+				lo[key] = c + 1
+			}
+		}
+		for key := range lo {
+			if lo[key] > hi[key] {
+				return false
+			}
+		}
 		return n <= 1
 	}
 	var recv *pred.Cell
@@ -352,6 +460,38 @@ func ruleC11Strict(e *Env) {
 				got = "ErrUnsupportedVersion"
 			default:
 				got = "error:" + r
+			}
+		}
+		// a range pre-check in front of the calendar guard: ErrInvalidDate for a month byte outside 1..12 or a day byte
+		// outside 1..31 is what the guard itself answers (no year has such a month or day)
+		if want == "decode" && lf.Err == nil && wrapsSentinel(lf.Out.Ret, "*date.ErrInvalidDate") {
+			bounds := func(idx int) (lo, hi int64) {
+				lo, hi = 0, 255
+				prefix := fmt.Sprintf("data[%d]==", idx)
+				for k, v := range lf.Assign {
+					if !strings.HasPrefix(k, prefix) {
+						continue
+					}
+					c, err := strconv.ParseInt(k[len(prefix):], 10, 64)
+					if err != nil {
+						continue
+					}
+					switch {
+					case v == 0:
+						lo, hi = c, c
+					case v < 0 && c-1 < hi:
+						hi = c - 1
+					case v > 0 && c+1 > lo:
+						lo = c + 1
+					}
+				}
+				return
+			}
+			mlo, mhi := bounds(5)
+			dlo, dhi := bounds(6)
+			if mhi < 1 || mlo > 12 || dhi < 1 || dlo > 31 {
+				e.S.Ok(rule, site, construct, "outcome ErrInvalidDate for a month outside 1..12 or a day outside 1..31 (what the calendar guard answers)", e.Pos(ub))
+				continue
 			}
 		}
 		switch {
